@@ -197,6 +197,12 @@ op("map_overlap", "df", lambda x: x[["a", "b"]].map_overlap(_mo_fn, 1, 0), pd=la
 op("loc_slice", "any", lambda x: x.loc[2:7], lsens=True, osens=True, tier=2)
 op("loc_bool", "df", lambda x: x.loc[x["a"] > 2], tier=2)
 op("loc_cols", "df", lambda x: x.loc[:, ["a", "b"]], tier=2)
+op("loc_list", "any", lambda x: x.loc[[9, 1, 10, 5]], lsens=True, osens=True, tier=2)
+op("loc_list_sorted", "any", lambda x: x.loc[[1, 5, 9]], lsens=True, osens=True, tier=2)
+op("loc_elem", "any", lambda x: x.loc[5:5], lsens=True, osens=True, tier=2)
+op("combine_first_rows", "df", lambda x: x[["b"]].combine_first(x[x["a"] > 2][["b", "u"]]), lsens=True, tier=2)
+op("combine_first_sel", "df", lambda x: x[["b"]].combine_first(x[x["a"] > 2][["b", "u"]])[["u"]], lsens=True, tier=2)
+op("combine_first_T2", "df", lambda x: x[["b", "d"]].combine_first(_T2(x)[["b", "e"]])["e"], lsens=True, tier=2)
 op("to_frame", "s", lambda x: x.to_frame(), tier=2)
 op("s_rename", "s", lambda x: x.rename("renamed"), tier=2)
 op("clear_div", "any", lambda x: x.clear_divisions(), pd=ident, tier=2)
@@ -247,6 +253,10 @@ op("reopt_combine", "df", lambda x: ((x["a"] + 1) * 2).optimize() - x["b"] * 3 i
 op("reopt_scalar_bcast", "df", lambda x: x["a"] / ((x["a"].sum() + 1) * 2).optimize() if not isinstance(x, pd.DataFrame) else x["a"] / ((x["a"].sum() + 1) * 2), tier=2, tags=("nested",))
 op("reopt_inner_cum", "df", lambda x: x["b"].cumsum() - ((x["a"].cumsum() + 1) * 2).optimize() if not isinstance(x, pd.DataFrame) else x["b"].cumsum() - ((x["a"].cumsum() + 1) * 2), osens=True, tier=2, tags=("nested",))
 op("reopt_filter", "df", lambda x: (lambda o: o[o["a"] > 1][["a", "b"]])(x.assign(z=x["a"] + 1).optimize()) if not isinstance(x, pd.DataFrame) else x.assign(z=x["a"] + 1)[x["a"] > 1][["a", "b"]], tier=2, tags=("nested",))
+# column labels that look like the placeholder keys of fused groups ("_0", "_1"): string arguments of a task that equal
+# a key of the graph are substituted by the scheduler
+op("ph_names", "df", lambda x: (lambda y: y.assign(r=(y["_0"] + 1) * y["_1"].sum())[["_0", "r"]])(x.rename(columns={"a": "_0", "b": "_1"})), tier=2, tags=("nested",))
+op("ph_names2", "df", lambda x: (lambda y: (y["_1"] + y["_0"].sum()) * y["_0"].max())(x.rename(columns={"a": "_0", "u": "_1"})), tier=2, tags=("nested",))
 op("twice_partitions", "any", lambda x: _concat([x.partitions[[0]], x.partitions[[1]]]), pd=None, tags=("twice", "daskonly", "psens"), tier=2)
 
 
